@@ -22,7 +22,7 @@ RULE = ("generated: per supported geometry chains of 1..4 modules (half of them 
         "and both products segmented and compared; distinct = distinct (original inputs, position, replacement).")
 ASSUMPTIONS = ["both assemblies are complete unambiguous chains of well-formed plasmids (exactly two sites each)"]
 FLOORS = {"c19_degenerate_signature_replacements": 50, "c19_typed_part_cases": 50, "c19_exchanges": 600, "c19_registry_exchanges": 30, "c19_segments_compared": 1500}
-MUST_REACH = ["AssemblyManager._generate_assembly"]
+MUST_REACH = ["AbstractVector.assemble", "AssemblyManager._generate_assembly"]
 NEEDS_REGISTRIES = True
 BUDGET_S = {"quick": 900, "thorough": 7200}
 
